@@ -306,7 +306,7 @@ func TestVerifServerKeyspaces(t *testing.T) {
 						continue
 					}
 					for _, q := range instances {
-						for _, rd := range []string{"grpc", "http"} {
+						for _, rd := range []string{"grpc", "http", "httpHead"} {
 							if !validateAC && rd == "grpc" {
 								continue
 							}
@@ -319,7 +319,11 @@ func TestVerifServerKeyspaces(t *testing.T) {
 								if q != "" {
 									p = "/" + (&url.URL{Path: q}).EscapedPath() + p
 								}
-								code, _, _ := f.vHTTPDo("GET", p, nil, nil)
+								m := "GET"
+								if rd == "httpHead" {
+									m = "HEAD"
+								}
+								code, _, _ := f.vHTTPDo(m, p, nil, nil)
 								hit = code == 200
 							}
 							want := !mangle || q == inst
@@ -405,5 +409,5 @@ func TestVerifServerKeyspaces(t *testing.T) {
 			f.Close()
 		}
 	}
-	rec.Set("rule", "mangling on/off x HTTP validation on/off x 8 instance names (empty, nested, containing ac/cas/blobs segments, unicode) x store via gRPC/HTTP x lookup via gRPC/HTTP with every instance name; 10 names differing only in slashes, case or blanks over gRPC; the empty blob's hash as an action key; plus cross key-space probes")
+	rec.Set("rule", "mangling on/off x HTTP validation on/off x 8 instance names (empty, nested, containing ac/cas/blobs segments, unicode) x store via gRPC/HTTP x lookup via gRPC / HTTP GET / HTTP HEAD with every instance name; 10 names differing only in slashes, case or blanks over gRPC; the empty blob's hash as an action key; plus cross key-space probes")
 }
